@@ -8,7 +8,7 @@ hook_commits = [l.split()[0] for l in hooks if l.split(' ', 1)[1].startswith('ve
 
 TRUST = 'TLC 1.8; harness/driver.cpp (logs arguments, results, stdout tags, hook counter); the frozen catalogue spec/catalog.json'
 TRUSTN = TRUST + '; spec/MasaReal.java (40-digit real arithmetic, cross-checked by MC_Oracle)'
-VAL = 'The value an evaluator returns is the result of the Eval action of Masa.tla; the trace specification judges every logged result against MasaOracle.tla: the documented field as a jet (MasaJet) and the governing operator (MasaPDE) applied to it at 45 digits, tolerance 2^14 u_p mag. Inputs are sampled (seeded random parameter assignments with every parameter drawn independently, points in a box, both precisions); the oracle is independent of the implementation (no MASA formula is transcribed).'
+VAL = 'The value an evaluator returns is the result of the Eval action of Masa.tla; the trace specification judges every logged result against MasaOracle.tla: the documented field as a jet (MasaJet) and the governing operator (MasaPDE) applied to it at 45 digits, tolerance 2^14 u_p mag. The environment moves too (errno and the floating-point flags are disturbed between assignments: a stuttering step of the specification). Inputs are sampled (seeded random parameter assignments with every parameter drawn independently, points in a box, both precisions); the oracle is independent of the implementation (no MASA formula is transcribed).'
 C = {
  'C01': ('exploration', VAL + ' 12 heat solutions.', 'TLA+ trace validation with a numeric oracle (jets + heat operator) of randomized value histories', '6 C01'),
  'C02': ('exploration', VAL + ' 8 Euler-family solutions incl. the cylindrical forms.', 'TLA+ trace validation with a numeric oracle (jets + Euler operators)', '6 C02'),
@@ -22,13 +22,13 @@ C = {
  'C10': ('exploration', 'Trace validation with the history variable memo of Masa.tla: identical (precision, solution, parameters, overload, arguments) must give bit-identical results across arbitrary interleaved calls and across two processes running the phases in opposite order, and sweeps must read back unchanged parameters; seeded random histories on every non-fixture solution; thorough: plus the repository\'s own programs traced through the ld --wrap shim.', 'TLA+ trace validation (memo history variable) of randomized purity histories', '6 C10'),
  'C11': ('model_checking', 'The parameter store is the par/vec maps of Masa.tla. TLC enumerates the 1-handle bounded model (full alphabet, both self-test fixtures with their failing init_var) exhaustively; every transition is replayed on the real library and random store histories run on every catalogue entry; TLC validates every read-back against the specification map; evaluators-use-last-set-values is judged by the numeric oracle.', 'TLC bounded model + replay of every transition + trace validation', '6 C11'),
  'C12': ('model_checking', 'TLC explores all interleavings of every API action over 2 handles (3 thorough) and over both precisions (quick: reduced alphabet Lite; thorough: full); Isolation, PrecIndependent, ReinitFresh, SelValid etc. are checked on the model, every transition is replayed on the real library and validated against the specification, plus long random multi-handle histories; thorough: the three state invariants as an inductive invariant of the typed registry core (MasaRegistryInd.tla) discharged by Apalache for 8 handles and histories of any length.', 'TLC bounded model + replay of every transition + trace validation', '6 C12'),
- 'C13': ('model_checking', 'MC_Names.tla enumerates every decoration (separator runs in up to two gaps x case masks) and every single-character negative of sampled base names and checks the normalisation against itself; every string is passed to masa_init and the outcome validated by Masa!Init/Resolve; random decorations and negatives of all 37 names.', 'TLC enumeration of name decorations + replay + trace validation', '6 C13'),
- 'C14': ('model_checking', 'Finite domain enumerated completely: every printed name and every frozen catalogue entry, both precisions, every evaluator of the capability set; each call validated by Masa.tla actions (PrintId, Init, GetName, GetDim, Sanity, InitParam, Eval).', 'exhaustive enumeration of the catalogue, TLA+ trace validation', '6 C14'),
- 'C15': ('exploration', 'All (solution, overload) pairs outside the capability set are enumerated (complete over pairs), arguments sampled, with a provider of the overload selected in the other precision; Masa!Eval demands -1.33, an ERROR tag, normal return, unchanged state.', 'enumeration of all unprovided overloads + TLA+ trace validation', '6 C15'),
- 'C16': ('model_checking', 'Every Fatal transition of the bounded model is executed in the exit() build (own process, exit status observed) and in the exception build (state swept after the caught int), incl. the two-precision model; FatalIntact / NoUseBeforeInit / FatalOnlyIfMisuse checked by TLC on model and traces.', 'TLC bounded model + replay of every fatal transition in both builds', '6 C16'),
+ 'C13': ('model_checking', 'MC_Names.tla enumerates every decoration (separator runs in up to two gaps x case masks) and every single-character negative of sampled base names and checks the normalisation against itself; every string is passed to masa_init and the outcome validated by Masa!Init/Resolve; separator runs of 64 to 4100 characters; random decorations and negatives of all 37 names.', 'TLC enumeration of name decorations + replay + trace validation', '6 C13'),
+ 'C14': ('model_checking', 'Finite domain enumerated completely: every printed name and every frozen catalogue entry, both precisions, every evaluator of the capability set; each call validated by Masa.tla actions (PrintId, Init, GetName, GetDim, Sanity, InitParam, Eval); plus re-initialisation of a handle with the same entry after a purge while another handle is current.', 'exhaustive enumeration of the catalogue, TLA+ trace validation', '6 C14'),
+ 'C15': ('exploration', 'All (solution, overload) pairs outside the capability set are enumerated (complete over pairs), arguments sampled, with a provider of the overload selected in the other precision and, in the same registry, the provider answering each overload first (first call of the overload in the process); Masa!Eval demands -1.33, an ERROR tag, normal return, unchanged state.', 'enumeration of all unprovided overloads + TLA+ trace validation', '6 C15'),
+ 'C16': ('model_checking', 'Every Fatal transition of the bounded model is executed in the exit() build (own process, exit status observed) and in the exception build (state swept after the caught int), incl. the two-precision model; unknown-handle spellings (empty, blank, other case, padded, 300 characters) are selected in four registry states through the three interfaces in both builds; FatalIntact / NoUseBeforeInit / FatalOnlyIfMisuse checked by TLC on model and traces.', 'TLC bounded model + replay of every fatal transition in both builds', '6 C16'),
  'C17': ('model_checking', 'C entry points are the same Masa.tla actions with p = d; bounded-model transitions replayed with C and C++ calls mixed at random, memo demands bit-identical values across the interfaces, statuses, array lengths and masa_get_name checked by the actions.', 'TLC bounded model replayed through mixed C/C++ calls + trace validation', '6 C17'),
- 'C18': ('other', 'Static relation between masa.f90, masa.h.in, cmasa.cpp, masa.i and the built library, complete over all entries: MasaAbi.tla states the Fortran-C interoperability slot mapping and TLC evaluates it on tables extracted from the tree under test.', 'TLC evaluation of a calling-convention model over extracted interface tables', '6 C18'),
- 'C19': ('model_checking', 'Bounded-model walks, random registry histories and init-order/vector-length histories run under three heap fill patterns with poisoned frees (traces validated with the hook counter bound to the specification heap: HeapExact, HeapStable; memo shared across patterns), under ASan+UBSan+LSan, and (thorough) Valgrind.', 'TLC bounded model replay under adversarial allocator + sanitizers, trace validation with heap binding', '6 C19'),
+ 'C18': ('other', 'Static relation between masa.f90, masa.h.in, cmasa.cpp, masa.i and the built library, complete over all entries: MasaAbi.tla states the Fortran-C interoperability slot mapping and TLC evaluates it on tables extracted from the tree under test; the SWIG clause compares the header as a C caller sees it with the header as SWIG sees it (conditionals evaluated with SWIG defined) and admits no directive but %module and %include.', 'TLC evaluation of a calling-convention model over extracted interface tables', '6 C18'),
+ 'C19': ('model_checking', 'Bounded-model walks, random registry histories and init-order/vector-length histories run under three heap fill patterns with poisoned frees (traces validated with the hook counter bound to the specification heap: HeapExact, HeapStable; memo shared across patterns), under ASan+UBSan+LSan, and (thorough) Valgrind; the histories include calls made from an atexit handler registered before the first MASA call (late section), validated like any other event.', 'TLC bounded model replay under adversarial allocator + sanitizers, trace validation with heap binding', '6 C19'),
  'C20': ('exploration', 'Two handles in one process per reduction, paired evaluations; the history variable pairs of MasaTrace demands agreement of each pair within roundoff of the common operator and both sides are judged by the oracle; 22 reductions, sampled inputs.', 'TLA+ trace validation (pairs history variable + numeric oracle)', '6 C20'),
 }
 NA_REASON = 'check not built yet in this session (planned, see DESIGN.md section 11); no claim is made'
